@@ -27,6 +27,8 @@ type plan struct {
 	Methods   []byte   // raw SOCKS5 client: the METHODS list
 	WantPos   int      // position of the server's method in Methods, -1 = absent
 	Pushy     bool     // raw SOCKS5 client: send the request even after a refusal
+	EarlyData int      // raw SOCKS5 client: initial payload sent behind the request before the reply (1 same write, 2 own write)
+	Cancel    string   // repo clients, CONNECT: when the dial context is cancelled: "" never, "before", "w0".."w2" (during the client's k-th write), "after" (only after DialStream returned)
 	Cmd       byte
 	Target    target
 	BadTarget string // raw HTTP client only: a request-target without a valid port
@@ -460,6 +462,9 @@ func genPlanOf(rt *rapid.T, protos []string) plan {
 			p.Methods[p.WantPos] = want
 		}
 		p.Pushy = rapid.IntRange(0, 2).Draw(rt, "pushy") == 0
+		if rapid.IntRange(0, 2).Draw(rt, "early-mode") == 0 {
+			p.EarlyData = rapid.IntRange(1, 2).Draw(rt, "early")
+		}
 	}
 	if http && p.Peer == "raw" {
 		p.Variant = httpVariant{
@@ -501,6 +506,19 @@ func genPlanOf(rt *rapid.T, protos []string) plan {
 	p.CliBuf = rapid.SampledFrom([]int{4096, 1, 2, 17, 512, 65536}).Draw(rt, "clibuf")
 	p.SrvBuf = rapid.SampledFrom([]int{4096, 1, 2, 17, 512, 65536}).Draw(rt, "srvbuf")
 	p.CliWriteTo = rapid.Bool().Draw(rt, "cliwriteto")
+	if p.EarlyData > 0 && p.InitPayload == 0 {
+		p.InitPayload = rapid.SampledFrom([]int{1, 2, 17, 240, 255, 256, 300, 4096}).Draw(rt, "early-len")
+	}
+	// dial context cancellation (repository clients take the context in DialStream)
+	if p.Peer == "repo" && p.Cmd == 1 && p.Proto != "ssnone" && rapid.IntRange(0, 4).Draw(rt, "cancel-mode") == 0 {
+		p.Cancel = rapid.SampledFrom([]string{"after", "w0", "w1", "w2", "before"}).Draw(rt, "cancel")
+		if rapid.Bool().Draw(rt, "cancel-noinit") {
+			p.InitPayload = 0
+		}
+		if sum(p.C2S) == 0 {
+			p.C2S = append(p.C2S, rapid.IntRange(1, 500).Draw(rt, "cancel-c2s"))
+		}
+	}
 	// server speaks first and its first bytes travel in the same segment as the success reply
 	s2cTotal := 0
 	for _, n := range p.S2C {
